@@ -53,6 +53,18 @@ impl Cx {
     }
 }
 
+/// wall deadline of the running generator in milliseconds since process start (0 = none); only
+/// the best-effort sanitizer / interpreter runs set it (--gen-budget-ms)
+static DEADLINE_MS: std::sync::atomic::AtomicU64 = std::sync::atomic::AtomicU64::new(0);
+static START: std::sync::OnceLock<Instant> = std::sync::OnceLock::new();
+
+/// polled by the long inner loops of the generators
+#[inline]
+pub fn expired() -> bool {
+    let d = DEADLINE_MS.load(std::sync::atomic::Ordering::Relaxed);
+    d != 0 && START.get().map(|s| s.elapsed().as_millis() as u64 > d).unwrap_or(false)
+}
+
 pub struct Gen {
     pub name: &'static str,
     pub count: u64,
@@ -104,6 +116,7 @@ fn main() {
     };
     mon::install_panic_hook();
     let t0 = Instant::now();
+    let _ = START.set(t0);
 
     let tier_s = if mode == "replay" { arg_val(&args, "--tier").unwrap_or_else(|| "quick".into()) } else { mode.clone() };
     let tier = if tier_s == "thorough" { Tier::Thorough } else { Tier::Quick };
@@ -123,6 +136,9 @@ fn main() {
                 }
             }
             let tg = Instant::now();
+            if gen_budget_ms != u128::MAX {
+                DEADLINE_MS.store((t0.elapsed().as_millis() + gen_budget_ms) as u64, std::sync::atomic::Ordering::Relaxed);
+            }
             let nthreads = std::cmp::max(1, std::cmp::min(threads as u64, g.count)) as usize;
             let reports: Vec<Report> = std::thread::scope(|s| {
                 let mut hs = Vec::new();
